@@ -175,11 +175,12 @@ fn do_reserve_regions<E: Entry>(ctx: &mut Ctx, live: &mut Live<E>, sources: &[E:
 
 fn do_reserve_items<E: Entry>(ctx: &mut Ctx, live: &mut Live<E>, vals: &[E::V]) -> bool {
     let r = &mut live.r;
-    let res = panics::catch(|| E::reserve_items(r, vals));
+    let which = ctx.rng.below(E::reserve_form_count().max(1));
+    let res = panics::catch(|| E::reserve_items_form(r, vals, which));
     match res {
         Ok(done) => {
             if done {
-                ctx.log(format!("{}.reserve_items({} values)", live.tag, vals.len()));
+                ctx.log(format!("{}.reserve_items[form {which}]({} values)", live.tag, vals.len()));
                 ctx.cover("op:reserve_items");
             }
             true
